@@ -111,8 +111,10 @@ class World:
             self.tobj[ev["o"]].points[...] = self.targets[ev["v"]]
         elif op == "perturb":
             al = self.als[ev["a"] - 1]
-            self.n_pert = getattr(self, "n_pert", 0) + 1
-            if hasattr(al, "set_rotation_matrix") and type(al).__name__ == "AlignmentRotation" and self.n_pert % 2 == 0:
+            import zlib
+
+            by_matrix = zlib.crc32(repr((ev["a"], ev["vals"], [v["cfg"] for v in ev["als"]], len(self.als))).encode()) % 2 == 0
+            if type(al).__name__ == "AlignmentRotation" and by_matrix:
                 # the other public way to overwrite the parameters of a rotation by hand: an improper matrix (a reflection) - whatever
                 # is put there, the next set_target fits afresh with the options the alignment was built with
                 al.set_rotation_matrix(np.array([[1.0, 0.0], [0.0, -1.0]]), skip_checks=True)
